@@ -107,6 +107,56 @@ func runC11(c *Ctx, r *Report, tier string) {
 		}
 	}
 
+	// the base handed to the integer parsers: getBase returns the tag's number whenever the tag is present
+	// (whatever its value, 0 included — base 0 means "by prefix"), else the caller's default
+	if gb := c.mustFn(r, "getBase"); gb != nil {
+		for _, ret := range returnsOf(gb) {
+			okB := true
+			var seen []string
+			for _, o := range c.originsOf(ret.Results[0], ret) {
+				seen = append(seen, trunc(o.Term, 70))
+				switch {
+				case o.Term == "P1":
+				case strings.HasPrefix(o.Term, `conv[int](call:strconv.ParseInt(call:(*multiTag).Get(`) && strings.HasSuffix(o.Term, `, "base"), 10, 32)#0)`):
+					// selected by nothing but `the tag is present`
+					for _, d := range c.controlDeps(gb, o.At.Block()) {
+						if l, ok := c.edgeLit(d.B, d.Succ); ok && !(strings.HasPrefix(l.Term, `nonempty(call:(*multiTag).Get(`) && strings.HasSuffix(l.Term, `, "base"))`)) {
+							okB = false
+							seen = append(seen, "guard "+l.String())
+						}
+					}
+					if o.Pred != nil {
+						if l, ok := c.edgeLitTo(o.Pred, o.Succ); ok && !(strings.HasPrefix(l.Term, `nonempty(call:(*multiTag).Get(`) && strings.HasSuffix(l.Term, `, "base"))`)) {
+							okB = false
+							seen = append(seen, "guard "+l.String())
+						}
+					}
+				default:
+					okB = false
+				}
+			}
+			r.Check(okB, "SIZE", c.fname(gb), "getBase yields the tag's number whenever the base tag is present", c.ipos(ret), "result ∈ {default, int(ParseInt(tag))}, the latter under no guard but `tag ≠ \"\"`", "getBase result: "+strings.Join(seen, " | "))
+		}
+	}
+	// a custom Unmarshaler decides for itself whether it takes an argument: canArgument answers false only
+	// for a bool-kinded option that is NOT an Unmarshaler
+	if ca := c.mustFn(r, "(*Option).canArgument"); ca != nil {
+		okU := false
+		if os, ok := c.verdictOrigins(ca, false); ok && len(os) > 0 {
+			okU = true
+			for _, fs := range os {
+				hasU := false
+				for _, f := range fs {
+					if l := c.cond(f.cond); l.Term == "nonnil(call:(*Option).isUnmarshaler(P0))" && l.Pos != f.pos {
+						hasU = true
+					}
+				}
+				okU = okU && hasU
+			}
+		}
+		r.Check(okU, "UNMARSHAL", c.fname(ca), "an Unmarshaler always takes an argument", c.pos(ca.Pos()), "canArgument() == false REQ(isUnmarshaler() == nil)", "a bool-kinded type with UnmarshalFlag is treated as an argument-less flag: its unmarshaler never sees the value")
+	}
+
 	// EXACT-STORE
 	wantStore := map[string]string{
 		"(reflect.Value).SetInt":    "call:strconv.ParseInt(P0, " + base + ", " + bits + ")#0",
